@@ -1,5 +1,6 @@
 import warnings
 
+import numpy as np
 from numpy import ndim
 from sklearn.linear_model import MultiTaskLasso, OrthogonalMatchingPursuit
 
@@ -16,6 +17,17 @@ def constrained_binary_solve(
         tol=0, fit_intercept=fit_intercept, precompute=precompute
     )
 
+    # OrthogonalMatchingPursuit stops on absolute thresholds (machine epsilon
+    # against squared inner products and squared atom norms), so data in very
+    # large or very small units made it stop early. Solve the equivalent problem
+    # with w and psi scaled to unit magnitude and scale the weights back.
+    w_scale = np.max(np.abs(w))
+    psi_scale = np.max(np.abs(psi))
+    if not (np.isfinite(w_scale * psi_scale) and w_scale * psi_scale > 0):
+        w_scale = psi_scale = 1.0
+    psi = psi / psi_scale
+    w = w / w_scale
+
     if quiet:
         with warnings.catch_warnings():
             warnings.filterwarnings("ignore", category=RuntimeWarning)
@@ -24,7 +36,7 @@ def constrained_binary_solve(
     else:
         model.fit(psi, w)
 
-    return model.coef_
+    return model.coef_ * (w_scale / psi_scale)
 
 
 def constrained_multiclass_solve(w, psi, alpha=1.0, quiet=False, **lasso_kws):
